@@ -16,7 +16,7 @@ from vf import oalsyn
 SUPPORTS_REPLAY = True
 SHARDS = {'quick': 16, 'thorough': 64}
 TIMEOUT = {'quick': 1500, 'thorough': 7200}
-MUST_HIT = ['Position.after-rejected-text', 'Position.nodes-compared', 'Position.multi-line-expression', 'Position.newline-in-end-keyword',
+MUST_HIT = ['EarlierObject.rechecked', 'Position.after-rejected-text', 'Position.nodes-compared', 'Position.multi-line-expression', 'Position.newline-in-end-keyword',
             'Position.comment-between-tokens', 'Totality.parsed', 'Totality.rejected', 'CpuBudget.guarded',
             'Totality.unterminated-comment', 'Position.comment-with-other-line-boundary-character']
 MUST_REACH = ['bridgepoint/oal.py:set_positional_info', 'bridgepoint/oal.py:find_column',
@@ -165,6 +165,10 @@ def positions(ctx, g, rng):
         if kind == 'position':
             raise Mismatch('positions/%s' % classify(msg, text), '%s at %s\n%s' % (msg, path, text[:500]))
         raise Mismatch('positions/other-tree', '%s at %s\n%s' % (msg, path, text[:300]))
+    # the tree stays what it is when other texts are parsed (or rejected) afterwards: it is compared once more
+    # after the next program went through the parser
+    ctx.later('returned-tree', (lambda: [(k, m) for k, _, m in om.compare(tree, got, positions=True, text=text)]),
+              'positions and source substrings recorded in a returned tree (differences to what was written)')
     return text
 
 
